@@ -975,7 +975,7 @@ def evaluate_input(meta):
     return None
 
 
-NETWORK_HELPERS = ['c10_rplanar', 'c10_rmps', 'c10_color']
+NETWORK_HELPERS = ['c10_rplanar', 'c10_rmps', 'c10_color', 'c10_rprmps']
 
 
 def search(m):
